@@ -1,6 +1,7 @@
 import SdcModel.MdibDescr
 import SdcModel.Proofs.MdibVer
 import SdcModel.Proofs.MdibMono
+import SdcModel.Proofs.MdibHist
 /-!
 # C02 — MDIB version counters are monotonic, gap-free and referentially consistent
 Property theorems over the provider model (`SdcModel/Mdib.lean`, `MdibDescr.lean`); helper lemmas are in `Proofs/Mdib*.lean`.
@@ -148,5 +149,59 @@ theorem context_tx_frame (t : Tables) (s : CScript) (h : Handle) :
     seenD (runC t s).1 h = seenD t h ∧ seenS (runC t s).1 h = seenS t h ∧ (runC t s).1.descrs = t.descrs ∧ (runC t s).1.states = t.states := by
   obtain ⟨a, b, c, d⟩ := runC_frame t s
   exact ⟨seenD_congr a c h, seenS_congr b d h, a, b⟩
+
+/-! ## descriptor transactions and histories of all seven transaction kinds
+
+`KOK` (kind discipline of the tables: single states are not of the context kind and do not hang on context descriptors,
+context states hang on context descriptors) is an invariant the real container classes guarantee by construction; the
+model's `kind` fields are free, so it is carried as a second invariant. `DScriptOK` says that the entities handed to
+`write_entity` are well-formed `Entity` objects (what `mdib.entities.by_handle` / `new_state` can produce); the classic
+calls (`add_descriptor`, `remove_descriptor`, `get_descriptor`, `get_state`) are unrestricted. -/
+
+def exCS : CState :=
+  { h := 10, dh := 4, dv := 0, sv := 0, body := 7, assoc := .assoc, bindV := none, unbindV := none, bindT := none, unbindT := none }
+def exD : DScript :=
+  ⟨[.getDescr 1, .getState 1, .removeDescr 3, .addDescr ⟨6, some 1, .metric, 0, 9, none⟩ (some 2),
+    .writeEntity ⟨4, some 1, .context, 0, 5, some 1⟩ none (some [exCS])], false, false⟩
+
+example : KOK exT ∧ DScriptOK exT exD ∧ (runD exT exD).2.2 = .committed := by decide
+/-- delete + re-create continues above the saved versions (descriptor 6 was removed at version 4, its state at 9) -/
+example : seenD exT 6 = some 4 ∧ seenD (runD exT exD).1 6 = some 5 ∧ seenS (runD exT exD).1 6 = some 10 ∧
+    seenD (runD exT exD).1 3 = some 1 ∧ findD (runD exT exD).1 3 = none := by decide
+
+/-- every descriptor transaction script - create / delete (whole subtrees) / update of descriptors with their states in any
+    order and combination, classic and entity interface, committed, refused by the consistency check, rejected, aborted -
+    keeps the tables well-formed (and keeps the kind discipline) -/
+theorem wf_preserved_descriptor_partial (t : Tables) (s : DScript) (hw : WF t) (hk : KOK t) (hs : DScriptOK t s) :
+    WF (runD t s).1 ∧ KOK (runD t s).1 := (runD_ok hw hk s hs).2
+
+/-- the statement without the kind discipline -/
+def C02_wf_full : Prop := ∀ (t : Tables) (s : DScript), WF t → WF (runD t s).1
+
+/-- ... is false of the model: its `kind` fields are independent, a single state of kind `context` is in no state dict of
+    the commit and keeps the old DescriptorVersion. (No real container has such a kind; not a defect of the code.) -/
+theorem C02_wf_full_false : ¬ C02_wf_full := by
+  intro h
+  have := h { descrs := [⟨1, none, .component, 0, 0, some 1⟩, ⟨3, some 1, .metric, 0, 0, some 1⟩], states := [⟨3, 0, 0, .context, 0⟩] }
+    ⟨[.getDescr 3], false, false⟩ (by decide)
+  revert this; decide
+
+/-- `KOK` is kept by state transactions that do what the API allows (`SKindOK`: no single state of the context kind, none
+    written to a context descriptor) and by every context transaction -/
+theorem kinds_preserved_state (t : Tables) (s : SScript) (hw : WF t) (hk : KOK t) (hs : SKindOK t s) : KOK (runS t s).1 :=
+  runS_kok hw hk s hs
+theorem kinds_preserved_context (t : Tables) (s : CScript) (hw : WF t) (hk : KOK t) : KOK (runC t s).1 := runC_kok hw hk s
+
+example : SKindOK exT exS := by decide
+
+/-- histories: any sequence of transactions of the seven kinds keeps the MDIB well-formed -/
+theorem wf_hist (t : Tables) (hist : List Script) (hw : WF t) (hk : KOK t) (h : HistOK false t hist) :
+    WF (runHist t hist) ∧ KOK (runHist t hist) := runHist_wfk hist t hw hk h
+
+/-- histories of state and context transactions need no side condition at all -/
+theorem wf_hist_state_context (t : Tables) (hist : List Script) (hw : WF t) (h : ∀ sc ∈ hist, sc.isSC = true) :
+    WF (runHist t hist) := runHist_wf_sc hist t hw h
+
+example : HistOK true exT [.s exS, .c exC, .d exD, .s exS] := by decide
 
 end Sdc.C02
